@@ -2,6 +2,7 @@ import JominiModel.Spec.BinDocText
 import JominiModel.Proofs.BinDocText
 import JominiModel.Proofs.BinDocTextFlat
 import JominiModel.Proofs.DateLeaf
+import JominiModel.Proofs.BinDocTextBytes
 /-
 C10 — text and binary renderings of one document deserialize to the same value.
 Stated at the level of the two reference meanings `valueOfText` / `valueOfBin` of ONE logical
@@ -92,5 +93,19 @@ theorem C10_flat_end_to_end : type_of% @BinDe.C10_flat_end_to_end := @BinDe.C10_
 
 /-- the date leaf for the same capstone. -/
 theorem C10_flat_date_leaf : type_of% @BinDe.C10_flat_date_leaf := @BinDe.C10_flat_date_leaf
+
+/-- the two slices' TEXT references agree on every scalar text and every scalar request (see
+`Proofs/BinDocTextBytes.lean`). -/
+theorem C10_text_scalar_references_agree : type_of% @BinDe.scalar_agree := @BinDe.scalar_agree
+
+/-- … and on every flat document under a struct request: this slice's `valueOfText` (over the logical document)
+and the text slice's `valueOf` (over the text document) have the same outcome. -/
+theorem C10_text_references_agree : type_of% @BinDe.valueOfText_bridge := @BinDe.valueOfText_bridge
+
+/-- C10 capstone at BYTE level (flat documents): the text parser / reader models followed by both text
+deserializer models on the rendered text bytes, and the binary parser / lexer models followed by the three binary
+deserializer models on the encoded binary bytes, all have the outcome `valueOfBin` of the one logical document.
+(The streaming text path carries the text reader slice's `bv_decide` certificates.) -/
+theorem C10_bytes_end_to_end : type_of% @BinDe.C10_bytes_end_to_end := @BinDe.C10_bytes_end_to_end
 
 end Jomini.Props.C10
